@@ -26,7 +26,7 @@ func checkInternal(t *rapid.T, fe *field.Element) {
 }
 
 func propHooks(t *rapid.T) {
-	which := rapid.SampledFrom([]string{"pow3mod4", "setshort", "reducesat", "rawlimbs"}).Draw(t, "which")
+	which := gen.Sampled([]string{"pow3mod4", "setshort", "reducesat", "rawlimbs"}).Draw(t, "which")
 	switch which {
 	case "pow3mod4":
 		a, _, kind := gen.Pair(t, P, "p")
